@@ -10,6 +10,8 @@ ASSUMPTIONS = [
     "plus every C13 primitive = its sequential spec for every schedule",
     "PARTIAL: that every schedule-dependent intermediate of the library is followed by one of these normalisers is not proved; it is decided per run by executing whole programs (meshes above the 1e4/1e5 thresholds) "
     "in the serial build, under virtual TBB with many adversarial schedules (random and maximal splitting, random chunk order, worker ids, task order) and under real TBB at 1..16 threads, and requiring equal hashes of every exported field",
+    "translator tie: every AtomicAdd / fetch_add / compare_exchange / tbb::combinable / concurrent_map / tbb::task_group site of src/ is regenerated into MV/Gen/Atomics.lean on every run and must be in the reviewed table "
+    "MV/Model/DetermSites.lean with its class's side condition (integral counters/cursors; floating accumulations and cursors without a normaliser only in ExecutionPolicy::Seq loops): all_sites_classified, reviewed_sites_live by kernel decide",
     "virtual TBB explores ordering nondeterminism only (one OS thread); real hardware interleavings are sampled",
 ]
 
@@ -21,10 +23,29 @@ def hashes(exe, prog, seed, mode, threads, timeout=3600):
     return re.findall(r"^HASH (\d+) (\S+) ([0-9a-f]+) size=(\d+)", p.stdout, re.M), ""
 
 
+GEN = os.path.join(core.LEAN, "MV", "Gen", "Atomics.lean")
+
+
 def run(ctx):
-    cov = core.proof_gate(ctx.pid, PROPS, ["MV.Props.C04"] if ctx.tier == "thorough" else None)
-    cov["checker_cmd"] = "cd lean && lake build MV mvdriver && lake env lean <#print axioms for every theorem of MV/Props/C04.lean>"
-    cov["trusted_base"] = core.TRUSTED_BASE + ["virtual TBB shim (harness/vtbb)", "oneTBB 2021.8 runtime for the sampled real schedules"]
+    # translator: inventory of every schedule-sensitive site of the current tree -> MV/Gen/Atomics.lean,
+    # re-proved against the reviewed classification (all_sites_classified, reviewed_sites_live)
+    import sys
+    p = core.sh([sys.executable, os.path.join(core.ROOT, "tools", "extract_atomics.py"), core.REPO, GEN])
+    if p.returncode != 0:
+        rp = core.write_replay(ctx.pid, "translator", {"broken": "tools/extract_atomics.py could not read the schedule-sensitive sites of src/", "stderr": p.stderr[-2000:]})
+        raise core.Violation("translator failed: " + p.stderr.strip()[-300:], rp, no_input=True)
+    inventory = p.stdout.strip()
+    broken = None
+    try:
+        cov = core.proof_gate(ctx.pid, PROPS, ["MV.Props.C04"] if ctx.tier == "thorough" else None)
+    except core.Violation as v:
+        # a proof obligation no longer checks (typically: a new / re-parallelised atomic site). Search for a
+        # concrete (program, schedule) pair with differing exports before reporting it without one.
+        broken = v
+        cov = {"obligations": 1, "discharged": 0, "explanation": v.msg}
+    cov["translator"] = "tools/extract_atomics.py -> lean/MV/Gen/Atomics.lean : " + inventory
+    cov["checker_cmd"] = "python3 tools/extract_atomics.py && cd lean && lake build MV mvdriver && lake env lean <#print axioms for every theorem of MV/Props/C04.lean>"
+    cov["trusted_base"] = core.TRUSTED_BASE + ["tools/extract_atomics.py (regex inventory of AtomicAdd/fetch_add/compare_exchange/combinable/concurrent_map/task_group sites, their scopes, element types and loop policies)", "the reviewed classification MV/Model/DetermSites.lean (which normaliser follows which site is asserted there, not derived)", "virtual TBB shim (harness/vtbb)", "oneTBB 2021.8 runtime for the sampled real schedules"]
     src = [os.path.join(core.ROOT, "harness", "c04_determ.cpp")]
     exes = {}
     libs.build_consistent(("ser", "vtbb", "par"))
@@ -55,6 +76,10 @@ def run(ctx):
                              "replay_cmd": "build/h/c04_%s %d %s %s %s  vs  build/h/c04_ser %d" % (v, pr, s, mode, t, pr)})
         if len(samples) < 4:
             samples.append({"program": pr, "objects": [(x[1], x[2], int(x[3])) for x in ref[:4]]})
+    if broken is not None:
+        broken.coverage = dict(cov, evaluations=evals, distinct_nontrivial=len(progs) * (nsched + len(threads)), trusted_base=core.TRUSTED_BASE,
+                               checker_cmd="lake build", search="no differing export found over %d (program, schedule) runs" % evals)
+        raise broken
     cov.update({"evaluations": evals, "distinct_nontrivial": len(progs) * (nsched + len(threads)), "programs": len(progs), "objects_hashed_per_run": objs,
                 "schedules_per_program": nsched, "real_tbb_thread_counts": threads, "max_triangles": max(sizes) if sizes else 0,
                 "rule": "9 fixed programs above the parallel thresholds (Booleans of 73k-triangle spheres, normals/curvature/properties, Refine+Warp+Simplify, 60-way BatchBoolean+Decompose, smoothing+hull+import, LevelSet, CrossSection Booleans/offset with >1024 edges, 40k-vertex triangulation, CSG+Minkowski) "
